@@ -100,6 +100,8 @@ static std::vector<std::string> c12Cases(bool thorough) {
     int step = thorough ? 1 : 8;
     for (int i = 0; i < 2048; i += 18 * step) v.push_back("fevent:" + std::to_string(i));
     for (int i = 0; i < 2048; i += step) v.push_back("frate:" + std::to_string(i));
+    // header rate and POINT:RATE that agree to 1e-4 Hz without being the same pattern (59.94 written by one program, 60000/1001 by another): both must be decoded and re-encoded as they are
+    for (int k = 0; k < 12; ++k) v.push_back("hrate:" + std::to_string(k));
     // every pattern file again under other LAYOUTS of the same content (leading zero bytes shift every absolute offset, a later parameter block, another record order)
     std::vector<std::string> lay = thorough ? std::vector<std::string>{"zeros=7", "pblock=3;order=groupsReversed", "zeros=1", "zeros=512", "prologue=0000", "order=paramsFirst;ids=swapped", "padblocks=1", "zeros=3;pblock=3"} : std::vector<std::string>{"zeros=7", "pblock=3;order=groupsReversed"};
     size_t n = v.size(); for (auto& ly : lay) for (size_t i = 0; i < n; ++i) v.push_back(v[i] + "@" + ly);
@@ -132,6 +134,10 @@ static bool c12ContentBase(const std::string& cs, gen::Content& c, gen::Layout& 
     if (kind == "fanalog") { c.nPoints = 0; c.nChans = 1; c.spf = 16; c.analogRate = 1600; c.nFrames = 128; c.anFn = [](int f, int s, int) { return fpat(f * 16 + s); }; return true; }
     if (kind == "fparam") { std::vector<uint32_t> v; for (int i = 0; i < 2048; ++i) v.push_back(fpat(i)); c.customParams.push_back(gen::GParam::floats("ALLF", {128, 16}, v)); return true; }
     if (kind == "fevent") { int i0 = atoi(arg.c_str()); c.nEvents = 18; for (int i = 0; i < 18; ++i) c.eventTimes.push_back(fpat((i0 + i) & 2047)); return true; }
+    if (kind == "hrate") {   // pairs (header, parameter) a few ulp apart; kept only if they agree under the library's documented 1e-4 truncation
+        static const float base[6] = {59.94f, 23.976f, 29.97f, 119.88f, 100.0f, 0.5f}; int k = atoi(arg.c_str()); float h = base[k % 6]; uint32_t hb = gen::f2b(h), pb = hb + (k < 6 ? 16u : 2u); float pf; memcpy(&pf, &pb, 4);
+        if ((int)(pf * 10000.0f) != (int)(h * 10000.0f)) return false;
+        c.haveHeaderRateBits = true; c.headerRateBits = hb; c.haveRateBits = true; c.rateBits = pb; c.nChans = 0; c.analogGroupEmpty = true; return true; }
     if (kind == "frate") { c.haveRateBits = true; c.rateBits = fpat(atoi(arg.c_str())); c.nChans = 0; c.analogGroupEmpty = true; return true; }
     return false;
 }
